@@ -61,3 +61,8 @@ add("C14", "exploration", "offline history checker over file versions on a virtu
     "or the first response in 8 header forms, '*') and random longer ones are replayed against the real Files and Pages apps of both interfaces; each response records the file version it came "
     "from and the checker flags stale 304s, old content, non-renewed validators, non-empty 304 bodies and fresh copies that do not revalidate.",
     "Virtual timestamps replace st_mtime/st_ctime for sandbox files only; same-size sub-second rewrites unconstrained; one inherent known finding (Last-Modified only, same-second size change).")
+add("C05", "fault_enumeration", "ASGI HTTP and PEP 3333 protocol automata over every recorded boundary event, with per-event fault injection (client close after item n, disconnect after event n, send() failure at event n, producer failure at step j) and wsgiref.validate as a second opinion",
+    "Generated response recipes of every class (statuses incl. unknown, mixed-case/Latin-1 headers, cookies, text/bytes/JSON, 0/1/many-chunk streams, SSE, files incl. 0-byte, non-ASCII names and every "
+    "Range outcome) x GET/HEAD are run to completion on both interfaces and then once per fault point (all points for short sequences, a fixed spread for long ones); the automata must accept the "
+    "complete sequence / every faulted prefix, and the exception that propagates must be the producer's own or the injected one.",
+    "Trusts the two automata (vf/automata.py, written from the ASGI spec and PEP 3333); user-supplied unrepresentable header values are outside the workload.")
